@@ -17,6 +17,9 @@ HARNESS = dict(src="harness/connev.cpp",
 # cfg bit -> connection_event_events bit it listens to
 CFG_TO_EVENT_BIT = {0: 4, 1: 0, 2: 1, 3: 2, 4: 3}
 ALL_CFGS = list(range(33))
+# runtime switchable peripheral_latency_configuration_set<>: harness cfg number -> member configurations
+# (17 = strict, 20 = strict_plus, 31 = default, 32 = peripheral_latency_ignored / listen_always)
+SETS = {100: [32, 20], 101: [17, 32, 31], 102: [17, 20]}
 
 
 def condition_held(cfg, ev):
@@ -40,6 +43,8 @@ def honest_session(rng, cfg, length):
     ops, timeouts, guess = ["cfg %d" % cfg], 0, 0
     for _ in range(length):
         r = rng.random()
+        if cfg in SETS and rng.random() < 0.15:
+            ops.append("select %d" % rng.randrange(len(SETS[cfg])))   # change_peripheral_latency<>()
         if r < 0.5 or (r < 0.65 and timeouts >= 8):
             ev = rng.choice([0, 0, 0, rng.randrange(64), 1 << rng.randrange(6)])
             pend, inst = 0, 0
@@ -115,11 +120,17 @@ def parse_state(f):
 def monitor_c23(ops, outs):
     """for honest sessions; returns (k, key, what) or None.  n = absolute number of the planned
     event, prev = absolute number of the last event that took place"""
-    cfg, n, prev, st = 0, 0, 0, None
+    cfg, n, prev, st, members = 0, 0, 0, None, None
     for k, (op, out) in enumerate(zip(ops, outs)):
         w = op.split()
         if w[0] == "cfg":
             cfg, n, prev, st = int(w[1]), 0, 0, dict(ci=0, ec=0, t=0, ll="1")
+            members = SETS.get(cfg)
+            if members:
+                cfg = members[0]          # a set starts with its first configuration selected
+            continue
+        if w[0] == "select" and members and out == "ok":
+            cfg = members[int(w[1])]      # the conditions that count are those of the selected configuration
             continue
         if w[0] not in ("reset", "plan", "timeout", "hresched"):
             continue
@@ -184,9 +195,27 @@ def proj_c23(op, line):
     return line
 
 
+def selected_cfgs(ops):
+    """the effective configuration number in force at each op (sets: the selected member)"""
+    cfg, members, res = 0, None, []
+    for op in ops:
+        w = op.split()
+        if w[0] == "cfg":
+            cfg = int(w[1])
+            members = SETS.get(cfg)
+            if members:
+                cfg = members[0]
+        elif w[0] == "select" and members and int(w[1]) < len(members):
+            cfg = members[int(w[1])]
+        res.append(cfg)
+    return res
+
+
 def run_c23(ctx, replay_path=None):
     res = Result()
-    res.rule = ("a session picks one of the 33 latency configurations (all 32 option subsets + listen_always) and issues "
+    res.rule = ("a session picks one of the 33 latency configurations (all 32 option subsets + listen_always) or one of three runtime "
+                "switchable peripheral_latency_configuration_set<> (two mixing peripheral_latency_ignored with other configurations, "
+                "switched with change_peripheral_latency<>() = op select; judged by the SELECTED configuration's conditions) and issues "
                 "plan_next_connection_event / ..._after_timeout / reschedule_on_pending_data / reset calls on the real "
                 "peripheral_latency_state<> and on the Lean model; compared per op on (channel index, event counter, "
                 "last_latency_, return value, disarm calls, events pulled back); honest sessions (latency <= 499, honest mock "
@@ -212,6 +241,16 @@ def run_c23(ctx, replay_path=None):
     for cfg in ([0, 1, 31, 32] if not ctx.thorough else ALL_CFGS):
         sessions.append(wrap_session(rng, cfg))
         honest.append(True)
+    for cfg in SETS:
+        for _ in range(per_cfg * 5):
+            sessions.append(honest_session(rng, cfg, rng.randrange(10, 60)))
+            honest.append(True)
+        for _ in range(per_cfg):
+            ops = class_session(rng, cfg, rng.randrange(5, 30))
+            for _ in range(3):
+                ops.insert(rng.randrange(1, len(ops) + 1), "select %d" % rng.randrange(len(SETS[cfg]) + 1))
+            sessions.append(ops)
+            honest.append(False)
     impl, model, dis = ctx.run_pair(sessions, proj_c23)
     for d in dis:
         ops = ctx.shrink_disagreement(sessions[d["session"]], proj_c23) if len(res.disagreements) < 2 else sessions[d["session"]]
@@ -225,17 +264,20 @@ def run_c23(ctx, replay_path=None):
             res.failures.append({"key": "C23:crash:" + r["crash"].split(" @")[0], "what": r["crash"], "ops": ops[:len(outs) + 1]})
             continue
         skip = cond = pull = False
-        for op, out in zip(ops, outs):
+        eff = selected_cfgs(ops)
+        for op, out, ecfg in zip(ops, outs, eff):
             w, f = op.split(), out.split()
             res.count(w[0])
+            if w[0] == "plan" and int(ops[0].split()[1]) in SETS:
+                res.count("set_plan_with_%s_selected" % ("listen_always" if ecfg == 32 else "other"))
             if out == "assert":
                 res.count("assert_answers")
             if w[0] in ("resched", "hresched") and len(f) >= 7:
                 res.count("resched_ret_%s_pulled_%s" % (f[0], "0" if f[2] == "0" else ">0"))
                 pull = pull or f[2] != "0"
             if w[0] == "plan" and len(f) == 4:
-                cond = cond or condition_held(int(ops[0].split()[1]), int(w[2]))
-                skip = skip or (not condition_held(int(ops[0].split()[1]), int(w[2])) and int(w[1]) > 0)
+                cond = cond or condition_held(ecfg, int(w[2]))
+                skip = skip or (not condition_held(ecfg, int(w[2])) and int(w[1]) > 0)
         if h:
             m = monitor_c23(ops, outs)
             if m:
@@ -243,9 +285,9 @@ def run_c23(ctx, replay_path=None):
                 if len([x for x in res.failures if x["key"] == key]) < 3:
                     res.failures.append({"key": key, "what": what, "ops": ops[:k + 1]})
         cfg = int(ops[0].split()[1])
-        if skip and cond and (pull or not (cfg & 1) or cfg == 32):
+        if skip and cond and (pull or (cfg not in SETS and (not (cfg & 1) or cfg == 32))):
             res.distinct.add(hash(tuple(ops)))
-        res.count("cfg_%s" % ("listen_always" if cfg == 32 else "disarmable" if cfg & 1 else "plain"))
+        res.count("cfg_%s" % ("set" if cfg in SETS else "listen_always" if cfg == 32 else "disarmable" if cfg & 1 else "plain"))
     res.samples = [" ; ".join(s[:8]) for s in (sessions[0], sessions[len(sessions) // 2], sessions[-1])]
     return res
 
@@ -255,7 +297,8 @@ PROPS = {
         theorems=["BluetoeModel.ConnEvents.skip_le_latency", "BluetoeModel.ConnEvents.timeout_advances_one",
                   "BluetoeModel.ConnEvents.listen_next_if_condition", "BluetoeModel.ConnEvents.full_latency_without_condition",
                   "BluetoeModel.ConnEvents.instant_not_skipped", "BluetoeModel.ConnEvents.counter_channel_in_step",
-                  "BluetoeModel.ConnEvents.track_fst", "BluetoeModel.ConnEvents.moved_event_not_before_now"],
+                  "BluetoeModel.ConnEvents.track_fst", "BluetoeModel.ConnEvents.moved_event_not_before_now",
+                  "BluetoeModel.ConnEvents.set_behaves_as_selected", "BluetoeModel.ConnEvents.set_listens_as_selected"],
         witnesses=["BluetoeModel.ConnEvents.latency_ffff_witness", "BluetoeModel.ConnEvents.stale_last_latency_witness"],
         run=run_c23,
         level="proof",
